@@ -197,10 +197,9 @@ PROPS = {
                       "yet under contract.",
         "units": [K("template.py::BaseTemplateFile.cook_check"), K("loader.py::TemplateLoader.load"),
                   U('pyvc.frames', 'search_path_frame', 'search_path_frame'),
-                  U('pyvc.frames', 'render_write_frame', 'render.write_frame')],
-        "not_decided": ["BaseTemplate.cook: macros of an earlier file version stay reachable "
-                        "(Macros.names / macros['x']) -- see known findings / DESIGN D5",
-                        "loader.cache decorator", "package-relative resolution"],
+                  U('pyvc.frames', 'render_write_frame', 'render.write_frame'),
+                  U('pyvc.frames', 'cook_drops_stale', 'cook.drops_stale_functions')],
+        "not_decided": ["loader.cache decorator", "package-relative resolution"],
         "assumptions": COMMON_ASSUMPTIONS + ["file system unchanged during one call"],
     },
     "C18": {
